@@ -46,7 +46,8 @@ FIELDS = (("observations", C_OBS), ("next_observations", C_NEXT_OBS), ("actions"
 
 def units(tier):
     return [{"name": "ring", "timeout": 2400}, {"name": "sample", "timeout": 2400},
-            {"name": "sample_large", "timeout": 2400}, {"name": "vector", "timeout": 2400},
+            {"name": "sample_large", "timeout": 2400}, {"name": "sample_sparse", "timeout": 2400},
+            {"name": "vector", "timeout": 2400},
             {"name": "vector_where", "timeout": 2400}, {"name": "algo", "timeout": 2400},
             {"name": "longrun", "timeout": 2400}]
 
@@ -1078,6 +1079,61 @@ def u_longrun(ctx):
     ctx.require("cases_past_2^31_insertions", 8)
 
 
+def u_sample_sparse(ctx):
+    """Large, barely filled buffers (capacity 2^17 .. 2^20, 1..48 transitions stored by the real add()), as right
+    after a short warm-up with the default buffer_size: batches up to exactly all stored, many keys. Every sampled
+    row must be a stored transition (never one of the ~10^5..10^6 unwritten slots) and occur once."""
+    import equinox as eqx
+    import jax
+    import jax.numpy as jnp
+    from jax import lax
+    from jax import random as jr
+
+    cfgs = _configs()
+    rng = ctx.rng
+    K = ctx.n(24, 64)
+    caps = [2**17, 100_000] if ctx.quick else [2**17, 100_000, 2**20, 1_000_000, 2**18 + 1]
+    Tpad = 48
+    for i in range(ctx.n(4, 15)):
+        cfg = cfgs[(i * 5 + 1) % len(cfgs)]
+        C = caps[i % len(caps)]
+        n = [32, int(rng.integers(1, Tpad + 1)), 1, Tpad, int(rng.integers(2, 12))][i % 5]
+        info0 = {"config": cfg["name"], "capacity": C, "n": n, "fill": round(n / C, 8)}
+
+        def fill(buf, ids, active):
+            def body(b, x):
+                gid, act = x
+                return lax.cond(act, lambda: _add_id(cfg, b, gid), lambda: b), None
+            return lax.scan(body, buf, (ids, active))[0]
+
+        try:
+            buf = _lerax(eqx.filter_jit(fill), _lerax(_mkbuf, cfg, C), jnp.arange(1, Tpad + 1, dtype=jnp.int32),
+                         jnp.arange(Tpad) < n)
+        except _LeraxRaised as e:
+            ctx.violation("add-raises", dict(info0, error=str(e)))
+            continue
+        stored = set(range(1, n + 1))
+        for b in sorted({n, max(1, n - 1), max(1, n // 2), 1}):
+            info = dict(info0, batch=b, mode="jit+vmap")
+            try:
+                out = _np(_lerax(_sample_fns(b)[1], buf, jr.split(ctx.key(i * 100 + b), K)))
+            except _LeraxRaised as e:
+                ctx.violation("sample-raises", dict(info, error=str(e)))
+                continue
+            for k in range(K):
+                ctx.case(dict(info, key=k), nontrivial=True, cls=f"sample-sparse/cap{C}/{'all-stored' if b == n else 'part'}")
+            ctx.monitor("sparse_buffer_batches_checked", K)
+            ctx.monitor("unwritten_slots_a_sampler_could_have_hit", (C - n))
+            seen = _judge_batches(ctx, "", out, K, b, stored, info)
+            if seen is not None:
+                _judge_reach(ctx, "", seen, b, stored, info)
+        del buf
+        jax.clear_caches()
+    ctx.require("sparse_buffer_batches_checked", 100)
+
+
 def run_unit(name, ctx):
+    if name == "sample_sparse":
+        return u_sample_sparse(ctx)
     {"ring": u_ring, "sample": u_sample, "sample_large": u_sample_large, "vector": u_vector,
      "vector_where": u_vector_where, "algo": u_algo, "longrun": u_longrun}[name](ctx)
